@@ -640,7 +640,16 @@ def _fidelity(ctx, fnd, raw, full, meta, stats):
                 refold = any(len(ln) > 78 for ln in hb.split(b"\n")) and b"=?" in hb
                 sdiff = [(a, b) for a, b in zip(sw, sg) if a != b][:2]
                 loose = lambda x: [(k, v.replace(" ", "")) for k, v in x]
-                fnd.report(FID_REFOLD if refold and loose(sw) == loose(sg) else None,
+                # is what came back exactly what Python's own email package makes of these header fields (policy SMTP,
+                # fold_binary - the call asimap's generator makes)?  Then the re-folding of the package is what changed them
+                by_email_pkg = False
+                try:
+                    m0 = email.message_from_bytes(raw, policy=email.policy.SMTP)
+                    again = b"".join(email.policy.SMTP.fold_binary(h, v) for h, v in m0.raw_items())
+                    by_email_pkg = header_fields(again + b"\r\n") == hf_g
+                except Exception:
+                    by_email_pkg = False
+                fnd.report(FID_REFOLD if refold and (loose(sw) == loose(sg) or by_email_pkg) else None,
                            ("APPEND fidelity: the header fields returned differ from the ones stored" if not refold else
                             "a header line longer than 78 octets that holds encoded words is re-folded by the email "
                             "package, which splits a word (an extra space appears in the decoded value)"),
